@@ -739,10 +739,22 @@ class Interp:
                 h = min(h, k // c)
             elif op == "Ne":
                 if k % c == 0:
-                    if l == k // c:
+                    # holes of the interval are kept in facts[("excl", sym)] (a frozenset) and eat into the bounds when they touch them
+                    ex = set(st.facts.get(("excl", s), ())) | {k // c}
+                    while l in ex:
                         l += 1
-                    if h == k // c:
+                    while h in ex:
                         h -= 1
+                    st.facts[("excl", s)] = frozenset(x for x in ex if l < x < h)
+            if op != "Ne":
+                ex = st.facts.get(("excl", s))
+                if ex:
+                    while l in ex:
+                        l += 1
+                    while h in ex:
+                        h -= 1
+                    if op == "Eq" and (k % c == 0) and (k // c) in ex:
+                        return False
             if l > h:
                 return False
             st.bounds[s] = (l, h)
